@@ -159,6 +159,10 @@ fn sweep_cases(seed: u64, tier: &str, bins: &Binaries, scratch: Option<&str>) ->
                         continue;
                     }
                     for cfg in [&Cfg::default(), &busy, &bare] {
+                        // very long lines are expensive for the library (super-linear): default settings only
+                        if lines.iter().any(|l| l.len() > 400) && (cfg != &Cfg::default() || crlf == 2) {
+                            continue;
+                        }
                         if let Some(content) = content_for(ch, lines, crlf, final_nl, &mut rng) {
                             let mut c = make_case(ch, lines, &content, cfg, &mut rng, true);
                             c.note = format!("sweep/a {} crlf={} final_nl={}", name, crlf, final_nl);
@@ -202,7 +206,7 @@ fn sweep_cases(seed: u64, tier: &str, bins: &Binaries, scratch: Option<&str>) ->
     // (c) single faults: needs the fault-free call counts of each (input, channel)
     let fault_inputs: Vec<&(String, Vec<String>)> = corpus
         .iter()
-        .filter(|(n, _)| ["two", "words", "utf8-widths", "cr-at-end", "empty-middle", "dup-heavy"].contains(&n.as_str()))
+        .filter(|(n, _)| ["two", "words", "utf8-widths", "cr-at-end", "empty-middle", "dup-heavy", "big-multibyte"].contains(&n.as_str()))
         .collect();
     for (name, lines) in &fault_inputs {
         for ch in ["stdin", "file", "file-via-stdin", "probe"] {
@@ -228,11 +232,15 @@ fn sweep_cases(seed: u64, tier: &str, bins: &Binaries, scratch: Option<&str>) ->
                 ("st", obs.fired.len().min(0) + if ch == "stdin" { 0 } else { 2 }),
                 ("w1", obs.writes_w1.max(1)),
             ];
-            let long = name == "dup-heavy";
+            let long = name == "dup-heavy" || name == "big-multibyte";
             for (cls, n) in counts {
-                let n = n.min(if long { 3 } else { 6 });
+                let n = n.min(if name == "big-multibyte" { 12 } else if long { 3 } else { 6 });
                 for idx in 0..n {
+                    if name == "big-multibyte" && !(cls == "r0" || cls == "rf") {
+                        continue;
+                    }
                     let kinds: Vec<(&str, i64)> = match cls {
+                        "r0" | "rf" if name == "big-multibyte" => vec![("eintr", 0), ("eof", 0), ("err", 5), ("chunk", 4097)],
                         "r0" | "rf" => vec![("eintr", 0), ("chunk", 1), ("chunk", 3), ("eof", 0), ("err", 5), ("err", 21), ("err", 104), ("err", 32)],
                         "op" => vec![("eintr", 0), ("err", 2), ("err", 13), ("err", 24), ("err", 40)],
                         "st" => vec![("size", 0), ("size", 1), ("size", content.len() as i64 + 4096), ("err", 5)],
@@ -484,7 +492,10 @@ fn random_case(rng: &mut Rng) -> Planned {
         let chan = if ch == "probe" { "file" } else { ch };
         if let Some(content) = content_for(chan, &lines, crlf, final_nl, rng) {
             let density = *rng.pick(&[0u64, 10, 25, 50]);
-            let cfg = cli_cfg(rng, density);
+            let mut cfg = cli_cfg(rng, density);
+            if lines.iter().any(|l| l.len() > 400) {
+                cfg = Cfg::default();
+            }
             let ff = rng.chance(1, 2);
             let mut c = if ch == "probe" {
                 make_probe_case(&content, &cfg, rng)
